@@ -640,6 +640,65 @@ def errset_leg(ctx, stats):
     else:
         ctx.violation("samlang_errors::ErrorSet: merged order is not the sorted duplicate-free union / depends on the merge order", payload)
 
+# --------------------------------------------------------------------------- layout protocol
+
+def gen_layout_case(rng):
+    """2-4 enums referring to each other; one Main.main that first mentions them in a chosen order."""
+    k = rng.range(2, 4)
+    defs = []
+    for i in range(k):
+        nv = rng.range(1, 3)
+        variants = []
+        for _ in range(nv):
+            nf = rng.weighted([(1, 5), (2, 2)])
+            variants.append([rng.pick(["i"] + [str(j) for j in range(k)] * 2) for _ in range(nf)])
+        variants.insert(rng.below(len(variants) + 1), [])
+        defs.append(variants)
+    roots = rng.shuffle(list(range(k)))[:rng.range(1, k)]
+    def vsrc(i, vi, fields):
+        return f"V{i}x{vi}" + ("(" + ", ".join("int" if f == "i" else f"E{f}" for f in fields) + ")" if fields else "")
+    classes = "".join(f"class E{i}({', '.join(vsrc(i, vi, f) for vi, f in enumerate(v))}) {{}}\n" for i, v in enumerate(defs))
+    nul = lambda i: next(vi for vi, f in enumerate(defs[i]) if not f)
+    body = " ".join(f"let _ = E{r}.V{r}x{nul(r)}();" for r in roots)
+    text = classes + f"class Main {{\n  function main(): unit = {{ {body} }}\n}}\n"
+    line = "layout " + ";".join(f"{i}:" + "|".join("+".join(f) if f else "-" for f in v) for i, v in enumerate(defs)) + " " + ",".join(map(str, roots))
+    return {"sources": {"Main": text}, "entry": "Main", "std": False}, line, k
+
+
+def real_layouts(mir0, k):
+    out = []
+    for i in range(k):
+        m = re.search(rf"(?m)^variant type Main_E{i} = \[(.*)\]$", mir0)
+        if not m:
+            out.append(f"{i}:?"); continue
+        items = re.findall(r"i31|Unboxed\([^)]*\)|Boxed\([^)]*\)", m.group(1))
+        out.append(f"{i}:" + ",".join("i" if x == "i31" else ("u" if x.startswith("U") else "b") for x in items))
+    return " ".join(out)
+
+
+def layout_leg(ctx, stats):
+    rng = ctx.rng.fork()
+    n = ctx.scale(60, 600)
+    cases = [gen_layout_case(rng) for _ in range(n)]
+    answers = run_configs([(mk_req(p, ["Main"], mir=True), THREADS[i % len(THREADS)]) for i, (p, _, _) in enumerate(cases)])
+    stats["evaluations"] += n
+    rc, model, err = common.run_exec(common.driver_bin("C12"), [], [l for _, l, _ in cases])
+    ok = 0
+    for (p, line, k), a, m in zip(cases, answers, model + ["<missing>"] * n):
+        if a.get("verdict") != "ok" or "mir0" not in a:
+            stats["layout_skipped"] = stats.get("layout_skipped", 0) + 1
+            continue
+        real = real_layouts(a["mir0"], k)
+        # types never demanded are absent from the dump / `?` in the model
+        pairs = [(x, y) for x, y in zip(real.split(" "), m.split(" ")) if not x.endswith("?") or not y.endswith("?")]
+        if any(x != y for x, y in pairs):
+            ctx.violation("model/implementation disagreement on protocol layout (Model/Layout.lean vs mir_generics_specialization.rs enum layout choice)",
+                          {"protocol": "layout", "line": line, "sources": p["sources"], "impl": real, "model": m,
+                           "broken": "correspondence layout"}, no_input=True)
+            return
+        ok += 1
+    stats["layout_ok"] = ok
+
 # --------------------------------------------------------------------------- run / replay
 
 def probes(ctx, stats):
@@ -682,6 +741,7 @@ def run(ctx):
     if not os.path.exists(BIN()):
         return ctx.finish(res, trusted=common.TRUSTED_COMMON)
     errset_leg(ctx, stats)
+    layout_leg(ctx, stats)
     rng = ctx.rng
     samples, nontrivial = [], 0
     for prog in load_corpus():
@@ -722,7 +782,8 @@ def run(ctx):
                 "error-provoking classes from 27 templates (nested-gap matches with every variant at the root, missing variants, tuples, "
                 "useless patterns, unresolved names/classes/members/modules, arity, duplicates, syntax errors, cyclic interfaces, "
                 "underconstrained generics, or-pattern bindings, struct bindings, private access)",
-        "samples": samples, "traces_validated_against_impl": stats["traces"] + stats.get("errset_ok", 0),
+        "samples": samples, "traces_validated_against_impl": stats["traces"] + stats.get("errset_ok", 0) + stats.get("layout_ok", 0),
+        "layout_cases_ok": stats.get("layout_ok", 0), "layout_cases_skipped": stats.get("layout_skipped", 0),
         "programs": n_acc + n_rej + n_seed, "program_streams": {"accepted_stream": n_acc, "rejected_stream": n_rej, "root_complete_nested_gap_stream": n_seed},
         "processes_per_program": {"accepted": p_acc, "rejected": p_rej},
         "verdict_histogram": stats["verdicts"], "error_kind_histogram": stats["error_kinds"],
